@@ -50,6 +50,15 @@ pub struct Obs {
     /// S2 with the session probe: (event index, event name, next-incoming-id in the listener's answer - None if
     /// it did not answer, Some(None) if the field was unset -, transfer frames the client had sent)
     pub session_probes: Vec<(usize, String, Option<Option<u32>>, u32)>,
+    // S2-relink
+    pub link_closes: u64,
+    pub handle_reuses: u64,
+    /// commits accepted while the transaction held a post whose link the client had closed
+    pub commits_with_post_on_closed_link: u64,
+    /// ... and the handle number of that link was held by a NEW link at the commit
+    pub commits_with_post_on_reused_handle: u64,
+    /// 1 if the history ended with: commit accepted, a post of it had lost its link before, nobody ever saw it
+    pub commit_accepted_post_discarded_link_gone: u64,
 }
 
 #[derive(Default)]
@@ -60,6 +69,11 @@ struct Counters {
     withheld_states: AtomicU64,
     commits_with_posts: AtomicU64,
     refusals: AtomicU64,
+    link_closes: AtomicU64,
+    handle_reuses: AtomicU64,
+    commits_with_post_on_closed_link: AtomicU64,
+    commits_with_post_on_reused_handle: AtomicU64,
+    commit_accepted_post_discarded_link_gone: AtomicU64,
 }
 
 fn run_history(series: Series, evs: Vec<Ev>, cnt: Option<&Counters>) -> HistOut {
@@ -73,6 +87,8 @@ fn run_history(series: Series, evs: Vec<Ev>, cnt: Option<&Counters>) -> HistOut 
                 Series::S2 => Box::pin(s2::scenario(evs, false)),
                 Series::S2Settled => Box::pin(s2::scenario(evs, true)),
                 Series::S3 => Box::pin(s3::scenario(evs)),
+                Series::S2Relink => Box::pin(s2::scenario_relink(evs, false)),
+                Series::S2RelinkSettled => Box::pin(s2::scenario_relink(evs, true)),
             }
         })
     };
@@ -93,6 +109,11 @@ fn run_history(series: Series, evs: Vec<Ev>, cnt: Option<&Counters>) -> HistOut 
                 c.withheld_states.fetch_add(o.withheld_states, Ordering::Relaxed);
                 c.commits_with_posts.fetch_add(o.commits_with_posts, Ordering::Relaxed);
                 c.refusals.fetch_add(o.refusals, Ordering::Relaxed);
+                c.link_closes.fetch_add(o.link_closes, Ordering::Relaxed);
+                c.handle_reuses.fetch_add(o.handle_reuses, Ordering::Relaxed);
+                c.commits_with_post_on_closed_link.fetch_add(o.commits_with_post_on_closed_link, Ordering::Relaxed);
+                c.commits_with_post_on_reused_handle.fetch_add(o.commits_with_post_on_reused_handle, Ordering::Relaxed);
+                c.commit_accepted_post_discarded_link_gone.fetch_add(o.commit_accepted_post_discarded_link_gone, Ordering::Relaxed);
             }
         }
         None => {
@@ -120,11 +141,17 @@ fn depths_for(ctx: &Ctx, s: Series) -> (usize, usize) {
         (true, Series::S2) => (4, 4),
         (true, Series::S2Settled) => (4, 4),
         (true, Series::S3) => (4, 4),
+        // depth 6 reaches [declare, post, post, close-link, attach-reusing-handle, commit] and
+        // [declare, post, close-link, attach-reusing-handle, post on the new link, commit]
+        (true, Series::S2Relink) => (6, 6),
+        (true, Series::S2RelinkSettled) => (5, 5),
         (false, Series::S1Shared) => (5, 7),
         (false, Series::S1Owned) => (5, 7),
         (false, Series::S2) => (5, 7),
         (false, Series::S2Settled) => (5, 6),
         (false, Series::S3) => (5, 6),
+        (false, Series::S2Relink) => (6, 8),
+        (false, Series::S2RelinkSettled) => (6, 7),
     }
 }
 
@@ -147,15 +174,16 @@ pub fn run(ctx: &Ctx) -> Outcome {
     // signature -> (shortest history, detail, trace, series, count)
     let mut found: BTreeMap<String, (Vec<usize>, String, Vec<String>, Series, u64)> = BTreeMap::new();
     // budget shares: the race exploration gets what is left after the four history searches
-    let shares = [0.25, 0.2, 0.2, 0.1, 0.15];
+    let shares = [0.22, 0.17, 0.17, 0.08, 0.12, 0.08, 0.06];
     for (si, series) in ALL_SERIES.iter().copied().enumerate() {
         let (d0, d1) = depths_for(ctx, series);
         let share: f64 = shares[..=si].iter().sum();
         let deadline = t0 + total.mul_f64(share);
         let mut completed: Option<usize> = None;
         let mut sample = None;
+        let abc = alphabet(series);
         for depth in d0..=d1 {
-            let st = search(ALPHABET.len(), depth, ctx.threads, deadline, |h| run_history(series, h.iter().map(|i| ALPHABET[*i]).collect(), Some(&cnt)));
+            let st = search(abc.len(), depth, ctx.threads, deadline, |h| run_history(series, h.iter().map(|i| abc[*i]).collect(), Some(&cnt)));
             executions += st.executions;
             events += st.events_executed;
             for m in st.machinery {
@@ -190,8 +218,8 @@ pub fn run(ctx: &Ctx) -> Outcome {
         }
         truncated |= completed != Some(d1);
         bounds.push(match completed {
-            Some(d) if d == d1 => format!("{}: all histories of depth {} over {} events", series.tag(), d, ALPHABET.len()),
-            Some(d) => format!("{}: all histories of depth {} over {} events (depth {} CUT by the budget)", series.tag(), d, ALPHABET.len(), d + 1),
+            Some(d) if d == d1 => format!("{}: all histories of depth {} over {} events", series.tag(), d, abc.len()),
+            Some(d) => format!("{}: all histories of depth {} over {} events (depth {} CUT by the budget)", series.tag(), d, abc.len(), d + 1),
             None => format!("{}: depth {} CUT by the budget, nothing completed", series.tag(), d0),
         });
         if let Some(t) = sample {
@@ -201,7 +229,7 @@ pub fn run(ctx: &Ctx) -> Outcome {
     for (sig, (h, detail, trace, series, n)) in found {
         let k = failing_len(&trace);
         let hist: Vec<usize> = h[..k.min(h.len())].to_vec();
-        let names: Vec<String> = hist.iter().map(|i| ev_name(series, ALPHABET[*i])).collect();
+        let names: Vec<String> = hist.iter().map(|i| ev_name(series, alphabet(series)[*i])).collect();
         out.violation(
             sig,
             format!("[{}] minimal history {:?}: {detail} ({n} histories of this run end in this class)", series.tag(), names),
@@ -223,18 +251,30 @@ pub fn run(ctx: &Ctx) -> Outcome {
     out.set("quiescent_states_with_withheld_posts", cnt.withheld_states.load(Ordering::Relaxed));
     out.set("commits_releasing_posts", cnt.commits_with_posts.load(Ordering::Relaxed));
     out.set("refusals_of_unknown_or_finished_ids_observed", cnt.refusals.load(Ordering::Relaxed));
+    out.set(
+        "relink",
+        json!({
+            "data_links_closed_by_the_client": cnt.link_closes.load(Ordering::Relaxed),
+            "new_links_attached_on_a_reused_handle_number": cnt.handle_reuses.load(Ordering::Relaxed),
+            "commits_accepted_with_a_post_whose_link_was_closed": cnt.commits_with_post_on_closed_link.load(Ordering::Relaxed),
+            "of_these_with_the_handle_number_held_by_a_new_link": cnt.commits_with_post_on_reused_handle.load(Ordering::Relaxed),
+            // documented, not judged: the statement's "all of them are delivered" has no addressee once the link is gone
+            "histories_ending_commit_accepted_post_discarded_because_its_link_was_gone": cnt.commit_accepted_post_discarded_link_gone.load(Ordering::Relaxed),
+        }),
+    );
     out.set("samples", json!(samples.into_iter().take(3).collect::<Vec<_>>()));
     out.set("exhaustive", !truncated && r.complete);
     out.set("bound", format!("{}; schedules: {}", bounds.join("; "), r.bound));
     out.set(
         "rule",
-        "states = distinct canonical observable states (reference-model state: per-slot transaction status, withheld posts per link, visible deliveries per link, discarded posts; control link attached; session alive; length of the application log) reached at quiescence by executing the real stack; transitions = distinct (state, event, state) triples",
+        "states = distinct canonical observable states (reference-model state: per-slot transaction status, withheld posts per link, visible deliveries per link, discarded posts, links closed by the client, committed posts whose link was gone; which link holds which handle number; control link attached; session alive; length of the application log) reached at quiescence by executing the real stack; transitions = distinct (state, event, state) triples",
     );
     out.assume("events are separated by quiescence (history search); concurrency between a commit and posts is covered by the separate schedule exploration only");
     out.assume("'in posting order' is judged per link: deliveries on different links are drained by different application tasks and have no defined relative order");
     out.assume("'refused with the transaction error' is read permissively: a rejected outcome, a link detach, a session end or a connection close carrying any amqp:transaction:* condition counts as refusal, as long as nothing is applied");
     out.assume("link 1 carries one-frame messages and link 2 ~1200-byte messages that need >= 3 frames at max-frame-size 512 (size is tied to the link to keep the alphabet at 14 events)");
     out.assume("transactional retirement and acquisition are not exercised: the statement defines no observable for them");
+    out.assume("S2-relink: a post belongs to the link (attachment) it was sent on; a committed post whose link the client closed before the commit is not demanded anywhere (no addressee), it only must not reach the application of another link; posts and discharges are only issued while the transaction is live, on one transaction slot");
     out
 }
 
@@ -251,7 +291,8 @@ fn replay(p: &std::path::Path, mut out: Outcome) -> Outcome {
         return race::replay(r, out);
     }
     let series = Series::from_tag(r["series"].as_str().unwrap_or("")).unwrap_or(Series::S1Shared);
-    let evs: Vec<Ev> = r["events"].as_array().map(|a| a.iter().filter_map(|x| x.as_u64()).map(|i| ALPHABET[i as usize % ALPHABET.len()]).collect()).unwrap_or_default();
+    let abc = alphabet(series);
+    let evs: Vec<Ev> = r["events"].as_array().map(|a| a.iter().filter_map(|x| x.as_u64()).map(|i| abc[i as usize % abc.len()]).collect()).unwrap_or_default();
     println!("replaying {} {:?}", series.tag(), evs.iter().map(|e| ev_name(series, *e)).collect::<Vec<_>>());
     let o = run_history(series, evs, None);
     for l in &o.trace {
